@@ -1075,7 +1075,73 @@ def run_bad_write(ctx, i, rng):
       ctx.check(res[kind] is not None, 'bad_write:accepted_under_transform', lambda: dict(case=desc, mutable=mut_name, plain=res['plain:' + kind]))
 
 
+def run_cond_rng_deep(ctx, i, rng):
+  """nn.cond / nn.switch whose branches call a setup() sub-module that draws random numbers SEVERAL scope levels below the
+  lifted module, where that sub-module may already have been called in plain code before the conditional (its rng counters
+  exist when the conditional is entered): every branch - not only the first one traced - and the code after the conditional
+  use the draws of the equivalent Python control flow. (Round h: the draws of `cond_rng` are at most one level down and the
+  sub-modules are created inside the branch.)"""
+  import jax
+  import jax.numpy as jnp
+  import flax.linen as nn
+  kind = ['cond', 'switch'][i % 2]
+  n_branches = 2 if kind == 'cond' else 3
+  sel = (i // 2) % n_branches
+  depth = 1 + (i // 6) % 3
+  warm = (i // 18) % 3          # plain calls of the block before the conditional
+  after = (i // 54) % 2 == 1    # the block is called again after the conditional
+  desc = dict(kind=kind, selected=sel, draw_depth=depth, plain_calls_before=warm, call_after=after)
+  with ctx.case('cond_rng_deep', i, desc, nontrivial=depth >= 2 and warm >= 1):
+    class Noise(nn.Module):
+      @nn.compact
+      def __call__(self, x):
+        return x + jax.random.normal(self.make_rng('dropout'), x.shape)
+
+    class Block(nn.Module):
+      depth: int
+
+      def setup(self):
+        self.inner = Noise() if self.depth == 1 else Block(self.depth - 1)
+
+      def __call__(self, x):
+        return self.inner(x) * 0.5
+
+    branches = [lambda m, x: m.blk(x) * 2.0, lambda m, x: m.blk(x) + 1.0, lambda m, x: m.blk(x * 2.0) - 3.0][:n_branches]
+    # (every branch draws the same number of keys: with unequal numbers the counters after the conditional are the maximum over
+    #  the branches - the branch taken is not known while tracing - and only freshness of later keys is promised, see cond_rng)
+
+    class M(nn.Module):
+      lifted: bool
+
+      def setup(self):
+        self.blk = Block(depth)
+
+      def __call__(self, x):
+        for _ in range(warm):
+          x = self.blk(x)
+        if not self.lifted:
+          y = branches[(1 - sel) if kind == 'cond' else sel](self, x)
+        elif kind == 'cond':
+          y = nn.cond(jnp.asarray(sel == 1), branches[0], branches[1], self, x)
+        else:
+          y = nn.switch(jnp.asarray(sel), branches, self, x)
+        z = self.blk(y) if after else y
+        return y, z, jax.random.normal(self.make_rng('dropout'), x.shape)
+
+    x = jnp.arange(3.0) + i % 4
+    rngs = {'dropout': jax.random.key(500 + i)}
+    want = M(False).apply({}, x, rngs=rngs)
+    got = M(True).apply({}, x, rngs=rngs)
+    ctx.op('nn.%s(branches call a deep setup sub-module that draws)' % kind)
+    ctx.check(close(want[0], got[0]), 'rng:%s_branch_draws_differ_from_python:deep' % kind,
+              lambda: dict(case=desc, python=np.asarray(want[0]).tolist(), lifted=np.asarray(got[0]).tolist()))
+    ctx.check(close(want[1], got[1]) and close(want[2], got[2]), 'rng:draw_after_%s_differs_from_python:deep' % kind,
+              lambda: dict(case=desc))
+
+
 def run(ctx):
+  for i in ctx.indices(108, 'cond_rng_deep'):
+    run_cond_rng_deep(ctx, i, ctx.rng('cond_rng_deep', i))
   n = 420 if ctx.tier == 'quick' else 4200
   for i in ctx.indices(n, 'case'):
     run_case(ctx, i, ctx.rng('case', i))
